@@ -121,6 +121,150 @@ def positive_fixtures():
         assert [f.func for f in r.findings] == ["User.bad"] and n["sites"] == 3, ("orientation rule", n, [f.func for f in r.findings])
 
 
+FIXTURE_WORLD = '''
+from dataclasses import dataclass
+from functools import lru_cache, cached_property, wraps
+
+TEMPLATE = {}
+DECIMAL_0 = 1
+
+
+def traced(func):
+    @wraps(func)
+    def wrapper(*args, **kwargs):
+        print("call")
+        return func(*args, **kwargs)
+    return wrapper
+
+
+def swallowing(func):
+    def wrapper(*args, **kwargs):
+        try:
+            return func(*args, **kwargs)
+        except Exception:
+            return None
+    return wrapper
+
+
+def amount(a, b):
+    return a * b
+
+
+def _amount_fast(a, b):
+    return a + b
+
+
+amount = _amount_fast
+
+
+@dataclass
+class Rec:
+    t: int
+
+    def __post_init__(self):
+        self.t = self.t // 60
+
+
+class Holder:
+    items = []
+
+    def __init__(self):
+        self.state = 1
+
+    @cached_property
+    def view(self):
+        return self.state * 2
+
+    @lru_cache(maxsize=None)
+    def pure(self, x):
+        return x + 1
+
+    @traced
+    def ok(self, x):
+        return x
+
+    @swallowing
+    def bad(self, x):
+        return x
+
+    def fill(self):
+        m = TEMPLATE
+        m["k"] = self.state
+        return m
+'''
+
+
+def world_fixtures():
+    from .report import Result
+    from .rules.fresh import fresh_rule
+    with tempfile.TemporaryDirectory() as d:
+        os.makedirs(os.path.join(d, "demeter"))
+        open(os.path.join(d, "demeter", "__init__.py"), "w").write("")
+        open(os.path.join(d, "demeter", "_typing.py"), "w").write(textwrap.dedent(FIXTURE_WORLD))
+        m = Model(d)
+        assert m.modules["demeter._typing"].funcs["amount"].node.name == "_amount_fast", "W1: the last binding of a def-bound name is followed"
+        r = Result("T", "selftest")
+        fresh_rule(m, r)          # runs R-WORLD at its end
+        txt = " | ".join(f"{f.func}: {f.construct}" for f in r.findings)
+        assert "Holder.view: @cached_property" in txt, ("W3 memo on a state reader", txt)
+        assert "Holder.pure" not in txt, ("W3 memo on a function of its arguments must stay silent", txt)
+        assert "Rec.__post_init__" in txt, ("W5 record constructor rewrites a field", txt)
+        assert "DECIMAL_0 is not 0" in txt, ("W6 named constant", txt)
+        assert "Holder.items" in txt, ("S2b empty class container", txt)
+        assert "module object TEMPLATE" in txt, ("S3 module object written through a local alias", txt)
+        ref = " | ".join(r.refusals)
+        assert "@swallowing" in ref and "@traced" not in ref, ("W3 transparent vs non-transparent repository decorator", ref)
+
+
+FIXTURE_POS = '''
+class DemeterError(RuntimeError):
+    pass
+
+
+class Broker:
+    def __init__(self):
+        self._assets = {}
+
+    def subtract_from_balance(self, token, amount):
+        self._assets[token].sub(amount)
+
+
+class Market:
+    def __init__(self):
+        self.broker = Broker()
+
+
+class M(Market):
+    def __init__(self):
+        super().__init__()
+        self.amount = 0
+
+    def pay(self, token, amount):
+        self.broker.subtract_from_balance(token, amount)
+        self.amount += amount
+
+    def pay_checked(self, token, amount):
+        if amount < 0:
+            raise DemeterError("negative")
+        self.broker.subtract_from_balance(token, amount)
+        self.amount += amount
+'''
+
+
+def pos_fixture():
+    from .report import Result
+    from .rules.posarg import run_posarg
+    with tempfile.TemporaryDirectory() as d:
+        os.makedirs(os.path.join(d, "demeter"))
+        open(os.path.join(d, "demeter", "__init__.py"), "w").write("")
+        open(os.path.join(d, "demeter", "m.py"), "w").write(textwrap.dedent(FIXTURE_POS))
+        m = Model(d)
+        r = Result("T", "selftest")
+        run_posarg(m, r, jobs=1)
+        got = sorted(f.func for f in r.findings)
+        assert "M.pay" in got and "M.pay_checked" not in got, ("R-POS", got, r.notes)
+
+
 FIXTURE_ORIENT_POOL = """
 class UniLpMarket:
     def _convert_pair(self, a0, a1):
@@ -179,6 +323,8 @@ def main():
         out, raises = Interp(m, T()).run(f, f.cls)
         assert seen["w"] >= 2 and seen["r"] >= 2 and len(raises) == 2, (seen, len(raises))
     positive_fixtures()
+    world_fixtures()
+    pos_fixture()
     from .norm import Rat
     from .vn import sym
     a, b = sym("a"), sym("b")
